@@ -41,8 +41,8 @@ func genRoundtrip(g *vlib.G) {
 	for _, p := range pairs {
 		fo, io := opByName(p.fwd), opByName(p.inv)
 		for _, n := range fo.lengths(g) {
-			if !g.Thorough() && fo.pow == 0 && n > 96 && n <= 200 {
-				continue // quick: 1..96 plus the menu of larger lengths
+			if !g.Thorough() && fo.pow == 0 && n > 64 && n != 256 && n != 360 && n != 467 && n != 512 {
+				continue // quick: 1..64 plus {256, 360, 467, 512}
 			}
 			p, n := p, n
 			g.Case(fmt.Sprintf("%s n=%d", p.name, n), func(t *vlib.T) {
